@@ -130,6 +130,8 @@ class Folder:
                 raise
             except Exception as ex:
                 raise NotConstant(str(ex))
+        if isinstance(e, (ast.ListComp, ast.GeneratorExp, ast.SetComp, ast.DictComp)):
+            return ConstEval(self, m).expr(e, dict(local or {}))
         raise NotConstant(type(e).__name__)
 
     def name(self, name: str, m: Module, cls: Optional[ClassInfo]):
@@ -295,6 +297,7 @@ class ConstEval:
     _BUILTINS = {"len": len, "range": range, "bytes": bytes, "int": int, "str": str, "list": list, "dict": dict,
                  "set": set, "tuple": tuple, "min": min, "max": max, "sorted": sorted, "enumerate": enumerate,
                  "zip": zip, "abs": abs, "bool": bool, "chr": chr, "ord": ord, "reversed": reversed, "sum": sum,
+                 "any": any, "all": all, "frozenset": frozenset, "divmod": divmod,
                  "True": True, "False": False, "None": None}
     _METHODS = {"append", "extend", "join", "encode", "decode", "lower", "upper", "get", "keys", "values", "items",
                 "startswith", "endswith", "strip", "rstrip", "lstrip", "split", "replace", "format", "copy", "add",
@@ -391,16 +394,31 @@ class ConstEval:
                     self.steps = sub.steps
                     return v
             raise NotConstant("constexpr: call %s" % ast.unparse(f))
-        if isinstance(e, ast.ListComp) and len(e.generators) == 1:
-            g = e.generators[0]
+        if isinstance(e, (ast.ListComp, ast.GeneratorExp, ast.SetComp, ast.DictComp)):
             out = []
-            for x in self.expr(g.iter, env):
-                self.tick()
-                env2 = dict(env)
-                self.assign(g.target, x, env2)
-                if all(self.expr(c, env2) for c in g.ifs):
-                    out.append(self.expr(e.elt, env2))
-            return out
+
+            def rec(gi, env1):
+                if gi == len(e.generators):
+                    if isinstance(e, ast.DictComp):
+                        out.append((self.expr(e.key, env1), self.expr(e.value, env1)))
+                    else:
+                        out.append(self.expr(e.elt, env1))
+                    return
+                g = e.generators[gi]
+                if g.is_async:
+                    raise NotConstant("constexpr: async comprehension")
+                for x in self.expr(g.iter, env1):
+                    self.tick()
+                    env2 = dict(env1)
+                    self.assign(g.target, x, env2)
+                    if all(self.expr(c, env2) for c in g.ifs):
+                        rec(gi + 1, env2)
+            rec(0, env)
+            if isinstance(e, ast.SetComp):
+                return set(out)
+            if isinstance(e, ast.DictComp):
+                return dict(out)
+            return out          # a generator expression is consumed once by its caller: a list stands in for it
         raise NotConstant("constexpr: unsupported expression %s" % type(e).__name__)
 
 
